@@ -430,10 +430,7 @@ func init() {
 		}
 		js = append(js, symJobs("c20", "ZZ_C20_Sym", []seqCfg{{"be_writing", 2, 0, 0, 0}, {"bw_w10_pending", 0, 0, 2, 10}}, mid, 1)...)
 		// loaders: single/bulk loads, explicit and automatic refreshes, every outcome incl. panics (concrete clock)
-		lsteps := 2
-		if tier == "thorough" {
-			lsteps = 3
-		}
+		lsteps := 2 // (three steps: ~170 000 paths per configuration, not validated within this session; both tiers run two)
 		for _, lc := range []struct {
 			name          string
 			ref, deferred int
